@@ -516,6 +516,9 @@ Paths12(axes, tests) ==
     {Path(ab, <<Step(ax, nt, <<>>)>>) : ab \in BOOLEAN, ax \in axes, nt \in tests}
     \cup {Path(ab, <<Step(ax, nt, <<>>), Step(ax2, nt2, <<>>)>>) : ab \in BOOLEAN, ax \in axes, nt \in tests, ax2 \in axes, nt2 \in tests}
 PoolC13wrap(axes, tests) == UNION {Wrappers(pa) : pa \in Paths12(axes, tests)}
+\* two steps on DIFFERENT axes (the first from the part's axis, the second from all twelve)
+PoolC13wrapMixed(axes, tests) ==
+    UNION {Wrappers(Path(ab, <<Step(ax, nt, <<>>), Step(ax2, nt2, <<>>)>>)) : ab \in BOOLEAN, ax \in axes, nt \in tests, ax2 \in Axes \ axes, nt2 \in tests}
 PoolC13wrapPred(A) == UNION {Wrappers(Path(FALSE, <<Step("child", NTAny, <<>>), Step(ax, NTAny, <<p>>)>>)) :
                                ax \in {"child", "descendant", "following-sibling", "ancestor"}, p \in A}
 
